@@ -43,7 +43,7 @@ def ind(lines, k=1):
 # ----------------------------------------------------------------------------
 
 CONSTRUCTS = ['if', 'ifelse', 'orelse', 'while', 'for', 'forxs', 'tryfin',
-              'tryexc', 'handler', 'tryexcfin', 'with', 'def']
+              'tryexc', 'handler', 'tryexcfin', 'handlerfin', 'with', 'def']
 LEAVES = ['assign', 'break', 'continue', 'return', 'raise']
 LOOPS = ('while', 'for', 'forxs')
 
@@ -155,6 +155,14 @@ def build_skeleton(chain, leaf, variant=0, pure=False, chk=False):
       return (['try:'] + ind(['if %s:' % g] + ind(['raise UErr(t(%d, 0))' % sk.tid()]) +
                              [sk.tr('a', 7)]) +
               ['except UErr:'] + ind(inner + [sk.tr('c', 8)]) + [sk.tr('a', 9)])
+    if c == 'handlerfin':
+      # the guarded jump sits in an except body of a try that also has a finally
+      inner = wrap(i + 1, lv, indef)
+      g = _cond(i + variant + 2, chain, lv)
+      return (['try:'] + ind(['if %s:' % g] + ind(['raise UErr(t(%d, 0))' % sk.tid()]) +
+                             [sk.tr('a', 7)]) +
+              ['except UErr:'] + ind(inner + [sk.tr('c', 8)]) +
+              ['finally:'] + ind([sk.tr('c', 10)]) + [sk.tr('a', 9)])
     if c == 'with':
       inner = wrap(i + 1, lv, indef)
       return (['with CM(%d):' % sk.tid()] + ind(inner + [sk.tr('a', 7)]) + [sk.tr('c', 9)])
